@@ -938,6 +938,9 @@ static void vbi_proxy_stop_acquisition( PROXY_DEV * p_proxy_dev )
       p_proxy_dev->p_decoder = NULL;
       p_proxy_dev->vbi_fd = -1;
 
+      /* clients must not keep pointers into the queue which is freed below */
+      vbi_proxy_queue_release_all(p_proxy_dev - proxy.dev);
+
       vbi_proxy_queue_free_all(&p_proxy_dev->p_free);
       vbi_proxy_queue_free_all(&p_proxy_dev->p_sliced);
    }
